@@ -160,7 +160,7 @@ fn gen_len(rng: &mut Rng, big: bool) -> usize {
 fn gen_string(rng: &mut Rng, n: usize) -> String { (0..n).map(|_| gen_char(rng)).collect() }
 fn gen_simple(rng: &mut Rng, k: u64, big: bool) -> Val {
     match k {
-        0 => Val::Bool(rng.bool()), 1 => Val::U8(*rng.pick(&[0u8, 1, 0x7f, 0x80, 0xff, rng.byte(), rng.byte()])),
+        0 => Val::Bool(rng.bool()), 1 => { let (a, b) = (rng.byte(), rng.byte()); Val::U8(*rng.pick(&[0u8, 1, 0x7f, 0x80, 0xff, a, b])) }
         2 => Val::Word(gen_word(rng)), 3 => Val::Int(gen_int(rng)), 4 => Val::Char(gen_char(rng)),
         5 => { let n = gen_len(rng, big); Val::Bytes(rng.bytes(n)) }
         6 => { let n = gen_len(rng, big) / 3; Val::Utf8(gen_string(rng, n)) }
